@@ -110,6 +110,7 @@ class Arr(object):
             pos = list(range(len(data)))
         self.buf, self.pos = buf, pos
         self.kind = kind            # optional dtype-kind tag ('f', 'c', 'i', 'b', 'O')
+        self.memrank = None         # memory rank of each logical element when it is known not to be C order
 
     # ---- basic protocol
     @property
@@ -140,8 +141,25 @@ class Arr(object):
         for i in range(self.shape[0]):
             yield self[i]
 
+    def mem_rank(self):
+        """Rank of every logical (C order) element in memory order, or None for C-contiguous / unknown layout.
+        Views of a buffer inherit the order of their buffer positions; results of elementwise operations inherit
+        the layout of their operands (numpy's order='K' behaviour)."""
+        if self.memrank is not None:
+            return self.memrank
+        if self.ndim >= 2 and len(set(self.pos)) == len(self.pos) and any(self.pos[i] > self.pos[i + 1]
+                                                                          for i in range(len(self.pos) - 1)):
+            order = sorted(range(len(self.pos)), key=lambda i: self.pos[i])
+            rank = [0] * len(order)
+            for r, i in enumerate(order):
+                rank[i] = r
+            return rank
+        return None
+
     def copy(self):
-        return Arr(self.shape, self.items(), kind=self.kind)
+        a = Arr(self.shape, self.items(), kind=self.kind)
+        a.memrank = self.mem_rank()
+        return a
 
     def view(self, shape, pos):
         return Arr(shape, buf=self.buf, pos=pos, kind=self.kind)
@@ -159,8 +177,10 @@ class Arr(object):
 
     # ---- shape ops
     def ravel(self):
-        # numpy returns a view when contiguous; views of a view are modelled as views too (conservative
-        # for aliasing analyses: a write through the result is seen in the source)
+        # numpy returns a view when the array is C-contiguous and a copy otherwise (e.g. a transposed / Fortran
+        # ordered array): a write through the result of ravel() of such an array is lost
+        if self.mem_rank() is not None:
+            return Arr((self.size,), self.items(), kind=self.kind)
         return self.view((self.size,), list(self.pos))
 
     def flatten(self):
@@ -962,9 +982,19 @@ def asarr(x, copy=False):
     return Arr((), [x])
 
 
+def _inherit_layout(res, *ins):
+    for a in ins:
+        if isinstance(a, Arr) and a.shape == res.shape:
+            r = a.mem_rank()
+            if r is not None:
+                res.memrank = r
+                break
+    return res
+
+
 def ew1(fn, a):
     if isinstance(a, Arr):
-        return Arr(a.shape, [fn(v) for v in a.items()], kind=a.kind)
+        return _inherit_layout(Arr(a.shape, [fn(v) for v in a.items()], kind=a.kind), a)
     if isinstance(a, (list, tuple)):
         return ew1(fn, asarr(a))
     return fn(a)
@@ -982,7 +1012,7 @@ def ew2(fn, a, b):
     shape = broadcast_shapes(sa, sb)
     ia = broadcast_to(a, shape).items() if isinstance(a, Arr) else [a] * _prod(shape)
     ib = broadcast_to(b, shape).items() if isinstance(b, Arr) else [b] * _prod(shape)
-    return Arr(shape, [fn(x, y) for x, y in zip(ia, ib)])
+    return _inherit_layout(Arr(shape, [fn(x, y) for x, y in zip(ia, ib)]), a, b)
 
 
 def ewn(fn, *args):
@@ -992,7 +1022,7 @@ def ewn(fn, *args):
         return fn(*args)
     shape = broadcast_shapes(*shapes)
     cols = [broadcast_to(a, shape).items() if isinstance(a, Arr) else [a] * _prod(shape) for a in args]
-    return Arr(shape, [fn(*vals) for vals in zip(*cols)])
+    return _inherit_layout(Arr(shape, [fn(*vals) for vals in zip(*cols)]), *args)
 
 
 def shape_of(x):
